@@ -1,5 +1,7 @@
 import Spine.Feature
+import Spine.FeatureMore
 import Spine.LocalTreeThm
+import Spine.LocalTreeMore
 import Spine.LocalTreeSpec
 /-!
 # C07 — the local device tree is announced faithfully and addressed uniquely
@@ -47,6 +49,12 @@ The announced CONTENTS are modelled as well: device description and destination 
 `Operations.Information` derives them (`c07_supported_functions`; the partial-write capability of a function on a
 feature type comes from the regenerated factory table `Spine.Generated.Functions`, supplied by the driver).
 Not modelled: reads overlapping feature or function additions (C17's subject).
+Deepening round (audit table: `design/audit-C07.md`): "never reused" is now a theorem over histories of the tree model
+incl. entities removed from the device and added again (`c07_numbers_never_reused_history`) and over every schedule of
+the event model incl. numbers burnt by NextFeatureId (`c07_numbers_never_reused`); "one and the same feature" is stated
+for what the calls ASKED for (`c07_handed_what_was_asked`, `c07_same_feature_asked`, `c07_same_feature_asked_refuted`,
+`c07_call_answered`) through the observers `Feat.drawn` / `Feat.answers` (`Spine/FeatureMore.lean`), which the driver
+prints and the harness compares with the implementation's own record.
 -/
 namespace Spine.Props.C07
 open Spine Spine.LTree
@@ -464,5 +472,101 @@ theorem c07_same_feature_refuted :
   have := h [.lookup 1 7 0, .lookup 2 7 0, .create 1, .create 2] (2, ⟨2, 7, 0⟩) (1, ⟨1, 7, 0⟩)
     (by rw [Feat.two_features_witness]; simp) (by rw [Feat.two_features_witness]; simp) rfl rfl
   revert this; decide
+
+/-! ## Clause 3 at full strength: "never reused", "the feature of the type and role ASKED for", every schedule -/
+
+/-- "Feature numbers handed out within an entity are never reused or duplicated", over HISTORIES of the tree model
+    (added in the deepening round; before, only "per state the numbers in use are distinct and below the generator"
+    was a theorem and "hence never reused" an argument). For every history `pre` and every continuation `ops` that
+    does not replace the entity object in slot k (`renew`) — it may remove the entity from the device and add it
+    again any number of times, and do anything to other entities — the numbers the object hands out during `ops`
+    (`drawnOn`: by NextFeatureId, or to a feature GetOrAddFeature creates), in the order of time, are strictly
+    increasing, each is at least the generator's value at the start of `ops`, hence larger than the number of every
+    feature the entity had then; and each is what the call returned. -/
+theorem c07_numbers_never_reused_history (cfg : DevCfg) (pre ops : List Op) (k : Nat) (hr : noRenew k ops) :
+    (drawnOn k (run cfg pre) ops).Pairwise (· < ·) ∧
+    (∀ n ∈ drawnOn k (run cfg pre) ops, ∀ f ∈ ((run cfg pre).pool k).feats, f.id < n) ∧
+    (∀ (s : St) (o : Op) (n : Nat), drawnAt k s o = some n → (step s o).2 = [.ret n]) := by
+  refine ⟨drawnOn_increasing k ops _ hr, ?_, fun s o n h => (drawnAt_spec k s o n h).2.2⟩
+  intro n hn f hf
+  have h1 := drawnOn_ge k ops _ hr n hn
+  have h2 := (((inv_run cfg pre).1 k).1).2 f hf
+  omega
+
+/-- non-vacuity: entity 1 gets a feature (number 1), is added to the device, removed, burns a number, is added
+    again, gets another feature — the numbers drawn are 1, 2, 3; the removal and re-addition did not restart them -/
+example : noRenew 1 [.feat 1 0 1, .attach 1, .detach 1, .nextId 1, .attach 1, .feat 1 0 0, .feat 1 0 1, .feat 2 0 1] ∧
+    drawnOn 1 (run {} [.renew 1 1, .renew 2 2])
+      [.feat 1 0 1, .attach 1, .detach 1, .nextId 1, .attach 1, .feat 1 0 0, .feat 1 0 1, .feat 2 0 1] = [1, 2, 3] := by
+  refine ⟨?_, by decide⟩
+  intro et hm
+  simp at hm
+
+/-- The same for EVERY SCHEDULE of the event model, both members (pinned commit and current tree): all numbers
+    drawn from the generator by any interleaving of any number of GetOrAddFeature and NextFeatureId calls
+    (`Feat.drawn`, in the order of time — including numbers NextFeatureId burnt without a feature) are strictly
+    increasing, all below the generator's final value, and the number of every feature in the list is one of them. -/
+theorem c07_numbers_never_reused (recheck : Bool) (evs : List Feat.Ev) :
+    (Feat.drawn recheck evs).Pairwise (· < ·) ∧
+    (∀ n ∈ Feat.drawn recheck evs, n < (Feat.run recheck evs).nextId) ∧
+    ∀ f ∈ (Feat.run recheck evs).feats, f.id ∈ Feat.drawn recheck evs := by
+  refine ⟨Feat.drawnFrom_increasing recheck evs {}, Feat.drawnFrom_lt recheck evs {}, ?_⟩
+  intro f hf
+  rcases Feat.feats_drawn_from recheck evs {} f hf with h | h
+  · simp at h
+  · exact h
+
+example : Feat.drawn false [.lookup 1 7 0, .nextId, .lookup 2 7 0, .create 2, .create 1, .getOrAdd 3 8 1, .getOrAdd 4 7 0]
+    = [1, 2, 3, 4] := by decide
+
+/-- A call is handed what it ASKED for (both members, every schedule; `Feat.answers` = the completed calls with the
+    type and role they asked for): the feature handed back has the asked type and role and is in the entity's feature
+    list at the end of the schedule (features are never dropped); and the model's own record of results is exactly
+    this list. (Before the deepening round `c07_same_feature` spoke about the type and role of the features handed
+    back, not about what was asked.) -/
+theorem c07_handed_what_was_asked (recheck : Bool) (evs : List Feat.Ev) :
+    (∀ a ∈ Feat.answers recheck evs, a.f ∈ (Feat.run recheck evs).feats ∧ a.f.typ = a.typ ∧ a.f.role = a.role) ∧
+    (Feat.run recheck evs).res = ((Feat.answers recheck evs).map fun a => (a.op, a.f)).reverse :=
+  ⟨Feat.answersFrom_spec recheck evs {}, Feat.res_eq_answers recheck evs⟩
+
+/-- CURRENT TREE's member, every schedule of any number of goroutines: any two calls that ASKED for the same type
+    and role — whenever they ran, however their lookups and creations interleaved with each other and with other
+    calls — were handed one and the same feature. -/
+theorem c07_same_feature_asked (evs : List Feat.Ev) (a b : Feat.Answer)
+    (ha : a ∈ Feat.answers true evs) (hb : b ∈ Feat.answers true evs)
+    (ht : a.typ = b.typ) (hr : a.role = b.role) : a.f = b.f := by
+  obtain ⟨ha1, ha2, ha3⟩ := Feat.answersFrom_spec true evs {} a ha
+  obtain ⟨hb1, hb2, hb3⟩ := Feat.answersFrom_spec true evs {} b hb
+  exact Feat.unique_of_onePer _ (Feat.c07_one_feature_per_type_role evs) a.f b.f ha1 hb1
+    (by rw [ha2, hb2, ht]) (by rw [ha3, hb3, hr])
+
+/-- non-vacuity: four goroutines, three of them asking for type 7 / client in an interleaved schedule, one for
+    another type; a NextFeatureId call in between -/
+example : Feat.answers true [.lookup 1 7 0, .lookup 2 7 0, .lookup 3 8 1, .nextId, .create 2, .create 3, .create 1, .getOrAdd 4 7 0] =
+    [⟨2, 7, 0, ⟨2, 7, 0⟩⟩, ⟨3, 8, 1, ⟨3, 8, 1⟩⟩, ⟨1, 7, 0, ⟨2, 7, 0⟩⟩, ⟨4, 7, 0, ⟨2, 7, 0⟩⟩] := by decide
+
+/-- Member `recheck = false` (the pinned commit), REFUTED in this form too: two calls asking for the same type and
+    role are handed different features. -/
+theorem c07_same_feature_asked_refuted :
+    ¬ (∀ (evs : List Feat.Ev) (a b : Feat.Answer), a ∈ Feat.answers false evs → b ∈ Feat.answers false evs →
+        a.typ = b.typ → a.role = b.role → a.f = b.f) := by
+  intro h
+  have := h [.lookup 1 7 0, .lookup 2 7 0, .create 1, .create 2] ⟨1, 7, 0, ⟨1, 7, 0⟩⟩ ⟨2, 7, 0, ⟨2, 7, 0⟩⟩
+    (by decide) (by decide) rfl rfl
+  revert this; decide
+
+/-- Every call is answered (both members): a lookup either hands back a feature at once or leaves the call pending
+    with what it asked for; the creation event of a pending call hands back a feature for exactly that request and
+    clears the pending entry. So a goroutine that runs its lookup and then its creation always returns a feature. -/
+theorem c07_call_answered (recheck : Bool) (s : Feat.St) (op typ role : Nat) :
+    ((∃ f, Feat.answerOf recheck s (.lookup op typ role) = some ⟨op, typ, role, f⟩) ∨
+      (Feat.step recheck s (.lookup op typ role)).missed.find? (·.1 = op) = some (op, typ, role)) ∧
+    (s.missed.find? (·.1 = op) = some (op, typ, role) →
+      ∃ f, Feat.answerOf recheck s (.create op) = some ⟨op, typ, role, f⟩ ∧
+        (Feat.step recheck s (.create op)).missed.find? (·.1 = op) = none) :=
+  ⟨Feat.lookup_answers_or_pends recheck s op typ role, Feat.create_answers recheck s op typ role⟩
+
+example : (Feat.step true {} (.lookup 1 7 0)).missed.find? (·.1 = 1) = some (1, 7, 0) ∧
+    Feat.answerOf true (Feat.step true {} (.lookup 1 7 0)) (.create 1) = some ⟨1, 7, 0, ⟨1, 7, 0⟩⟩ := by decide
 
 end Spine.Props.C07
